@@ -179,6 +179,9 @@ func getObjPrototype() *Value {
 			"pluck": NewCell(Value{
 				Tag: ValueNativeFn,
 				NativeFn: func(e *Evaluator, v []*Value, this *Value) (*Value, error) {
+					if this == nil {
+						return nil, nil
+					}
 					newObj := NewObject()
 					for _, value := range v {
 						val, err := this.GetMember(*value)
